@@ -388,6 +388,14 @@ func runC16(c *Ctx) {
 	c.ruleModelTable("Q5-exec-model")
 	// Q6
 	c.ruleConstruction("Q6-instances-alike")
+	// every management operation publishes by storing into the rule builders of gp.rbSlice; an execution
+	// follows it only if the request runs on that very builder: prepare* bind gw.rulebuilder =
+	// gp.rbSlice[gw.tag] on every request (the binding obligation of C06-P2) -- a private builder that
+	// copied the container pointer once keeps running the rule set of its first request
+	c.only = func(key string) bool { return strings.HasSuffix(key, "#own-rulebuilder") }
+	c.ruleLifecycleHelpers("Q10-instances-run-the-published-builder")
+	c.only = nil
+	c.Min("Q10-instances-run-the-published-builder", 2)
 	// RemoveRules of the pool applies the builder's removal to the master and to every instance: what
 	// the queries and the executions see afterwards is what that removal leaves installed (shared with C08-H6)
 	c.ruleFullBuildAndRemoval("Q7-removal-reinstalls")
